@@ -76,6 +76,17 @@ def _generic_cases(tier):
                     if kind == 'zero_padded' and L == 1:
                         continue
                     yield ['generic', spin, opt, L, kind]
+    if tier == 'quick':
+        # the wiring of both constructions depends on L//2 and on how many orbitals lie left / right of the centre:
+        # larger orbital counts with one coefficient kind each
+        for L in (7, 8):
+            for opt in (True, False):
+                yield ['generic', False, opt, L, 'complex']
+        yield ['generic', True, True, 5, 'sparse']
+    # explicit spin-orbital construction with three orbitals on the left of the centre (L = 6, 4096-dimensional: sparse comparison)
+    yield ['generic_sparse', True, False, 6, 'sparse']
+    if tier != 'quick':
+        yield ['generic_sparse', True, False, 6, 'real']
 
 
 def _onehot_cases(tier):
@@ -94,6 +105,8 @@ def _onehot_cases(tier):
 
 def run_case(case, ctx):
     kind0, spin, opt, L = case[:4]
+    if kind0 == 'generic_sparse':
+        return run_sparse_case(case, ctx)
     if kind0 == 'generic':
         t, v = coeffs(ctx.rng(0), L, case[4])
         ctx.cls(f'{"spin" if spin else "spinless"}:{"optimized" if opt else "explicit"}:{case[4]}')
@@ -124,6 +137,28 @@ def run_case(case, ctx):
         m2 = build(spin, t, v, False)
         ctx.calls += 1
         ctx.close(dense.mpo_to_matrix(m2.A), M, 'optimized_and_explicit_construction_agree', tol=1e-10)
+
+
+def run_sparse_case(case, ctx):
+    """Large explicit spin-orbital MPO compared in sparse form.  The sparse conversion of the MPO is pytenet's own
+    (`as_matrix(sparse_format=True)`, whose agreement with the dense form is the subject of C03); the reference is the independent
+    Fock-space operator."""
+    _, spin, opt, L, kind = case
+    t, v = coeffs(ctx.rng(0), L, kind)
+    if kind == 'sparse':
+        v = np.where(ctx.rng(1).uniform(size=v.shape) < 0.2, v, 0)     # keep the reference affordable
+    ctx.cls(f'spin:explicit:L={L}:sparse_comparison')
+    ctx.nontrivial = True
+    Href = (fock.spin_molecular if spin else fock.molecular)(t, v)
+    mpo = build(spin, t, v, opt)
+    ctx.calls += 1
+    M = mpo.as_matrix(sparse_format=True)
+    diff = abs(M - Href)
+    err = diff.max() if diff.nnz else 0.0
+    scale = max(abs(Href).max(), 1.0)
+    ctx.obs(np.float64(err))
+    ctx.check(M.shape == Href.shape, 'mpo_matrix_shape', M.shape)
+    ctx.check(err <= 1e-10 * (1 + scale), 'mpo_equals_second_quantized_operator', f'err={err:.3e} scale={scale:.3e}')
 
 
 def unitary(rng, kind):
